@@ -896,6 +896,8 @@ def real_rate_concrete(rp):
     kw = {"limit_sigma": bool(rp.get("limit", False))}
     if rp.get("gamma") == "custom":
         kw["gamma"] = _custom_gamma
+    elif rp.get("gamma") == "huge":
+        kw["gamma"] = lambda *a: 1e6
     m = mk_model(name, rp["params"], **kw)
     ckw = {}
     if rp.get("t") is not None:
@@ -1624,3 +1626,61 @@ def c16_predict(rp):
             if any(abs(u - v) > 1e-11 for u, v in zip(xa, xb)):
                 return True, f"{name}.{rp['op']} under {mode} by {f}: {out} vs {base}"
     return False, "invariant"
+
+
+# ---------------------------------------------------------------- C08
+def _all_finite(x):
+    if isinstance(x, (list, tuple)):
+        return all(_all_finite(y) for y in x)
+    return isinstance(x, (int, float)) and math.isfinite(x)
+
+
+@checker("c08_total")
+def c08_total(rp):
+    try:
+        out = real_rate_concrete(rp)
+    except Exception as e:  # noqa: BLE001
+        return rp.get("clause") != "canary", f"{rp['model']}.rate raised {type(e).__name__}: {e}"
+    if rp.get("clause") == "canary":
+        return False, "no failure inside the domain"
+    return not _all_finite(out), f"{rp['model']}.rate -> {str(out)[:120]}"
+
+
+@searcher("c08_total")
+def c08_total_search(rp, seed):
+    rnd = random.Random(seed)
+    sizes = [len(x) for x in rp["game"]]
+    canary = rp.get("clause") == "canary"
+    for k in range(1500):
+        beta = (25 / 6) * 10 ** rnd.choice([-3, -1, 0, 2, 3])
+        wide = 1e4 if canary else 20
+        if k % 3 == 0:
+            # corners of the domain: whole teams at the extremes
+            sgc = rnd.choice([1e-4, 1e-4, 10])
+            gm = [[[enc((wide if (i + k // 3) % 2 else -wide) * beta), enc(sgc * beta)] for _ in range(m)] for i, m in enumerate(sizes)]
+        else:
+            gm = [[[enc(rnd.choice([-wide, wide, rnd.uniform(-wide, wide)]) * beta), enc(rnd.choice([1e-4, 10, rnd.uniform(1e-4, 10)]) * beta)] for _ in range(m)] for m in sizes]
+        params = dict(mu=enc(25.0), sigma=enc(25 / 3), beta=enc(beta), kappa=enc(rnd.choice([1e-4, 1e-2, 1e-8])), tau=enc(rnd.choice([0.0, 0.02, 100.0]) * beta))
+        r2 = dict(rp, game=gm, params=params, ranks=[enc(rnd.choice(range(len(sizes)))) for _ in sizes], clause=None,
+                  gamma=rnd.choice(["default", "huge"]) if not canary else "default")
+        try:
+            bad, msg = c08_total(r2)
+        except Exception:  # noqa: BLE001
+            continue
+        if bad:
+            return dict(r2, clause=rp.get("clause")), msg
+    return None
+
+
+@checker("c08_predict")
+def c08_predict(rp):
+    name = rp["model"]
+    m = model_cls(name)()
+    for op in ([rp["op"]] if rp.get("op") else ["predict_win", "predict_draw", "predict_rank"]):
+        try:
+            out = getattr(m, op)(mk_game(name, rp["game"]))
+        except Exception as e:  # noqa: BLE001
+            return True, f"{name}.{op} raised {type(e).__name__}: {e}"
+        if not _all_finite(out):
+            return True, f"{name}.{op} -> {out}"
+    return False, "finite"
